@@ -468,6 +468,24 @@ func (w *asWorld) checkClaimProofs(c *asCert, cs []*bridgesync.Claim) {
 		if crypto.Keccak256Hash(lf.Mer.Value, lf.Rer.Value) != h32(lf.Inner.GlobalExitRoot) || h32(lf.Inner.GlobalExitRoot) != cl.GlobalExitRoot {
 			w.fail(fmt.Sprintf("[C09] certificate %d imported exit %d: the L1 info leaf's global exit root is not keccak(mer, rer) of the claim", c.id, i))
 		}
+		// the proofs on the wire are the ones of the claim's calldata, in their places
+		eqSibs := func(a []common.Hash, b [32]common.Hash) bool {
+			if len(a) != 32 {
+				return false
+			}
+			for k := range a {
+				if a[k] != b[k] {
+					return false
+				}
+			}
+			return true
+		}
+		if !eqSibs(sibs(proofs[0]), cl.ProofLocalExitRoot) {
+			w.fail(fmt.Sprintf("[C09,C10] certificate %d imported exit %d: the leaf proof on the wire is not the claim's local-exit-root proof", c.id, i))
+		}
+		if !mainnet && !eqSibs(sibs(proofs[1]), cl.ProofRollupExitRoot) {
+			w.fail(fmt.Sprintf("[C09,C10] certificate %d imported exit %d: proof_ler_rer on the wire is not the claim's rollup-exit-root proof", c.id, i))
+		}
 		// (c) the exit's own proofs lead from the claimed leaf to those exit roots
 		exitLeaf := wireExitHash(ib.BridgeExit)
 		if mainnet {
@@ -615,6 +633,25 @@ func asWorldGen(r *Run, rng *Rng, w *asWorld, steps int) {
 		do("epoch")
 		r.Count("branch:prelude-header-without-prev")
 	}
+	if w.hist && !w.agg.omitPrev && rng.Chance(50) {
+		// directed prelude for "a replacement recovered at start-up is itself replaced" with the history table on
+		l2++
+		do(fmt.Sprintf("l2blk %d b:0:%d", l2, rng.U64()%1000000))
+		do("epoch")
+		if c := openCert(); c != nil {
+			do(fmt.Sprintf("move %d E", c.id))
+		}
+		do("epoch!")
+		if w.node == nil {
+			do("restart")
+		}
+		if c := openCert(); c != nil {
+			do(fmt.Sprintf("move %d E", c.id))
+		}
+		do("epoch")
+		do("epoch")
+		r.Count("branch:prelude-recovered-replacement-replaced")
+	}
 	for i := 0; i < steps; i++ {
 		x := rng.Intn(100)
 		switch {
@@ -647,7 +684,11 @@ func asWorldGen(r *Run, rng *Rng, w *asWorld, steps int) {
 					toks = append(toks, ct)
 				}
 			}
-			do(strings.TrimSpace(fmt.Sprintf("l2blk %d %s", l2, strings.Join(toks, " "))))
+			op := "l2blk"
+			if rng.Chance(10) && strings.Contains(strings.Join(toks, " "), "b:") {
+				op = "l2blk!" // a storage fault on the bridge-row insert, then the retry
+			}
+			do(strings.TrimSpace(fmt.Sprintf("%s %d %s", op, l2, strings.Join(toks, " "))))
 		case x < 52:
 			do("epoch")
 		case x < 64:
@@ -684,6 +725,10 @@ func asWorldGen(r *Run, rng *Rng, w *asWorld, steps int) {
 			if rng.Chance(20) {
 				do("failrec")
 				do("restart")
+			}
+			if i > steps*2/3 && rng.Chance(40) {
+				do("forge") // records that contradict the Agglayer's: the start-up has to refuse
+				r.Count("branch:forged-record")
 			}
 			do("restart")
 		case x < 93:
